@@ -42,7 +42,7 @@ def BOUNDS(tier):
 
 
 def REQUIRED_COVER(tier):
-    return {'registry', 'listdir-orders', 'ctor:boxed-alt', 'len:253', 'len:254', 'len:65536', 'flags:all-combos', 'vector:0', 'vector:3', 'nested-object', 'nested-sequence', 'registry-history', 'failure-history', 'blockid',
+    return {'registry', 'listdir-orders', 'ctor:boxed-alt', 'len:253', 'len:254', 'len:65536', 'flags:all-combos', 'vector:0', 'vector:3', 'nested-object', 'nested-sequence', 'registry-history', 'failure-history', 'opaque-id', 'blockid',
             'string:utf8', 'vector:int', 'vector:int256', 'vector:bytes'}
 
 
@@ -590,6 +590,44 @@ def shard_pair_histories(rec, part, parts):
     rec.sample({'registry_history': 'fresh TlGenerator: liteServer.getOutMsgQueueSizes (all flag combinations), then every other constructor with optional fields'})
 
 
+def shard_opaque_ids(rec):
+    """sixth session (wave 9): opaque bytes that BEGIN with the id of a bundled constructor.  What the parser makes of them is the library's
+    documented auto-parse and is not asserted - but whatever it hands out, serialising THAT value again gives the bytes it was parsed from."""
+    L = lib_registry()
+    S = ref_schema()
+    heads = [S.encode({'@type': 'liteServer.getTime'}, True), S.encode({'@type': 'dht.ping', 'random_id': 5}, True), S.encode({'@type': 'liteServer.getVersion'}, True)]
+    tails = [b'\x01', b'\x01\x02\x03\x04', bytes(range(1, 9)), bytes(12)]
+    hosts = [('liteServer.query', 'data', {}), ('adnl.message.query', 'query', {'query_id': 'ab' * 32}), ('liteServer.sendMessage', 'body', {})]
+    for host, field, rest in hosts:
+        for h in heads:
+            for h2 in (b'', heads[0]):
+                for t in tails:
+                    x = bytes(h) + bytes(h2) + t
+                    v = dict(rest, **{'@type': host, field: x})
+                    enc = bytes(S.encode(v, True))
+                    rec.case('opaque-id')
+                    rec.state(('opaque', host, x.hex()))
+                    rec.nontriv(('opaque', host, x.hex()))
+                    rec.trans(2)
+                    try:
+                        back, used = L.deserialize(enc)
+                    except Exception:
+                        rec.outcome('parse-refused(not asserted)')
+                        continue
+                    try:
+                        again = L.serialize(L.get_by_name(host), back)
+                    except Exception as e:
+                        rec.violation('opaque-id:reserialize-raises', f'{host}.{field} = {x.hex()} (a constructor id followed by bytes that are no object): the value deserialize returned '
+                                      f'({str(back)[:160]}) cannot be serialised: {exc_name(e)}: {e}', 'shard_opaque_ids', {})
+                        continue
+                    rec.trace()
+                    if bytes(again) != enc:
+                        rec.violation('opaque-id:reserialize-bytes', f'{host}.{field} = {x.hex()}: the value deserialize returned serialises to other bytes than it was parsed from', 'shard_opaque_ids', {})
+                        continue
+                    rec.outcome('ok')
+    rec.covered('opaque-id')
+
+
 def shard_failure_histories(rec):
     """sixth session (wave 9): ONE registry object that has refused many inputs.  Valid values with nested objects in bytes fields are parsed,
     then every proper prefix of their encodings and every single-byte damage of the nested length / vector-count bytes is fed to the same
@@ -814,6 +852,7 @@ def shards(tier, seed):
     for p in range(parts):
         out.append({'fn': 'shard_values', 'args': {'part': p, 'parts': parts}, 'prio': 1})
     out.append({'fn': 'shard_failure_histories', 'args': {}, 'prio': 2})
+    out.append({'fn': 'shard_opaque_ids', 'args': {}})
     hp = 16 if tier == 'quick' else 48
     for p in range(hp):
         out.append({'fn': 'shard_pair_histories', 'args': {'part': p, 'parts': hp}, 'prio': 2})
